@@ -43,7 +43,7 @@ def make_lit(kind, k):
     if kind == "lang2":
         return ["lit", ["colour", "b", "x", "y"][k], LANGSTRING, "en-GB"]
     if kind == "integer":
-        return ["lit", str(k), XSD + "integer", ""]
+        return ["lit", ["0", "1", "-5", "+3"][k], XSD + "integer", ""]
     if kind == "int":
         return ["lit", str(10 + k), XSD + "int", ""]
     if kind == "date":
